@@ -41,6 +41,7 @@ type handle struct {
 	crashed bool
 	done    bool
 	pending Pending
+	fault   bool // the next gated call of this handle fails with an injected I/O error instead of being performed
 }
 
 // Controller owns one run: the handles, the alias table and the event log.
@@ -260,15 +261,24 @@ func PathKind(alias string) string {
 	return "other"
 }
 
-// Gate is called by the façades before a filesystem operation.
-func Gate(op, path, to string) {
+// InjectNext arms a fault for handle id: the call it is parked at is not performed, the façade
+// returns an I/O error for it (a transient EIO / EMFILE / ENOSPC as seen by one process).
+func (c *Controller) InjectNext(id int) {
+	if h := c.handles[id]; h != nil {
+		h.fault = true
+	}
+}
+
+// Gate is called by the façades before a filesystem operation.  It reports whether the
+// controller wants the call to fail with an injected error instead of being performed.
+func Gate(op, path, to string) bool {
 	c := current()
 	if c == nil {
-		return
+		return false
 	}
 	h := c.me()
 	if h == nil {
-		return
+		return false
 	}
 	p := Pending{Op: op}
 	if path != "" {
@@ -279,6 +289,9 @@ func Gate(op, path, to string) {
 	}
 	h.parked <- p
 	<-h.wake
+	f := h.fault
+	h.fault = false
+	return f
 }
 
 // Done is called by the façades after the operation returned.
